@@ -112,8 +112,8 @@ static void wakeup_event_condition(void *vp, void *arg)
 
 /*
  * Two-pass approach to avoid mutate-while-iterate bugs: First iterate over the
- * hashheap, note the handles for any that evaluate to true, schedule
- * reactivation event, then remove those from the hashheap.
+ * hashheap, note the waiters that evaluate to true, in waiting list order, then
+ * schedule their reactivation events and remove them from the hashheap.
  *
  * Note that this may lead to spurious wakeups, since we cannot know what the
  * first process to resume will do to whatever state that determines the
@@ -122,8 +122,7 @@ static void wakeup_event_condition(void *vp, void *arg)
  *
  * Also note that this runs atomically within one thread, since none of the
  * resumed processes (coroutines) will get the CPU before the one running this
- * chooses to yield it. Hence, safe to schedule the wakeup events in the first
- * iteration where the process pointers are easily available.
+ * chooses to yield it.
  */
 bool cmb_condition_signal(struct cmb_condition *cvp)
 {
@@ -140,33 +139,41 @@ bool cmb_condition_signal(struct cmb_condition *cvp)
     }
 
     /* Allocate space enough to reactivate everything in the heap */
-    uint64_t *tmp = cmi_malloc(hp->heap_count * sizeof(*tmp));
+    struct cmi_heap_tag *tmp = cmi_malloc(hp->heap_count * sizeof(*tmp));
 
-    /* First pass, recording the satisfied demand predicates */
+    /*
+     * First pass, recording the satisfied demand predicates. Kept in waiting
+     * list order (priority, then waiting time) by insertion, since the heap
+     * array itself is only partially ordered and the wakeup events below run
+     * in the order they are scheduled when the priorities are equal.
+     */
     for (uint64_t ui = 1; ui <= hp->heap_count; ui++) {
         /* Decode the hashheap item */
-        struct cmi_heap_tag *htp = &(hp->heap[ui]);
-        void **item = htp->item;
-        struct cmb_process *pp = item[0];
-        cmb_condition_demand_func *demand = item[1];
-        const void *ctx = item[2];
+        const struct cmi_heap_tag *htp = &(hp->heap[ui]);
+        struct cmb_process *pp = htp->item[0];
+        cmb_condition_demand_func *demand = htp->item[1];
+        const void *ctx = htp->item[2];
 
         if ((*demand)(cvp, pp, ctx)) {
-            /* Satisfied, note it on the list, schedule wakeup event */
+            /* Satisfied, note it on the list */
             cmb_logger_info(stdout, "Condition %s satisfied for process %s",
                             rbp->name, pp->name);
-            tmp[cnt++] = htp->key;
-            const double time = cmb_time();
-            const int64_t priority = cmb_process_priority(pp);
-            (void)cmb_event_schedule(wakeup_event_condition, pp,
-                                     (void *)CMB_PROCESS_SUCCESS,
-                                     time, priority);
+            uint64_t uj = cnt++;
+            while ((uj > 0u) && (*hp->heap_compare)(htp, &(tmp[uj - 1u]))) {
+                tmp[uj] = tmp[uj - 1u];
+                uj--;
+            }
+            tmp[uj] = *htp;
         }
     }
 
-    /* Second pass, remove the satisfied waiters from the hashheap */
+    /* Second pass, schedule the wakeup events and remove the satisfied waiters */
     for (uint64_t ui = 0u; ui < cnt; ui++) {
-        cmi_hashheap_remove(hp, tmp[ui]);
+        struct cmb_process *pp = tmp[ui].item[0];
+        (void)cmb_event_schedule(wakeup_event_condition, pp,
+                                 (void *)CMB_PROCESS_SUCCESS,
+                                 cmb_time(), cmb_process_priority(pp));
+        cmi_hashheap_remove(hp, tmp[ui].key);
     }
 
     cmi_free(tmp);
